@@ -29,7 +29,8 @@ RULE = ("compounds: Hypothesis draws a flat or one-level grouped item list over 
         "and D2O_sld(c, v, f) real is s for v in 0, 0.3, 1. molecules: every entry of the fasta tables (99) on a 4x4 (v,d) grid, "
         "plus generated Molecule(formula, cell_volume | natural density | tag) and Sequence objects: .sld/.Dsld = direct real SLD "
         "of the H/D form at the cell volume, .D2Omatch = 100*f (oracle and nsf.D2O_match), .D2Osld = oracle mixture and "
-        "nsf.D2O_sld real part, .mass/.Dmass; a Sequence is also handed to nsf.D2O_sld as '<type>:codes'. Private table: the same compound oracles with table=T, T a "
+        "nsf.D2O_sld real part, .mass/.Dmass; generated Molecules carry in 2 of 5 draws a heavy atom taken from every element "
+        "or isotope whose neutron data has an energy-dependent table (selected by neutron.nsf_table, not by the flag); a Sequence is also handed to nsf.D2O_sld as '<type>:codes'. Private table: the same compound oracles with table=T, T a "
         "private PeriodicTable customised as in the guide (masses rescaled to H[1]=1, densities accordingly, nsf.init), compounds as "
         "strings, as Formula objects parsed with table=T and as dicts of T's atoms, reference values from T's own masses and "
         "neutron data, in drawn order with the same case on the public table; fixed public-table probes are compared exactly "
@@ -59,6 +60,12 @@ ASSUMPTIONS = [
 _STATE = {}
 
 
+def has_table(atom):
+    """The atom's scattering length is interpolated from an energy-dependent table (whatever its flag says)."""
+    n = atom.neutron
+    return getattr(n, "nsf_table", None) is not None or bool(getattr(n, "is_energy_dependent", False))
+
+
 def env():
     if not _STATE:
         import numpy as np
@@ -86,11 +93,11 @@ def env():
             for a in el.isotopes:
                 if el[a].neutron.has_sld():
                     isos.append([el.symbol, a, 0])
-                    if el[a].neutron.is_energy_dependent:
+                    if has_table(el[a]):
                         edep.append([el.symbol, a, 0])
                     if el.ions and len(isoions) < 400:
                         isoions.append([el.symbol, a, el.ions[(a + len(isoions)) % len(el.ions)]])
-            if el.neutron.has_sld() and el.neutron.is_energy_dependent:
+            if el.neutron.has_sld() and has_table(el):
                 edep.append([el.symbol, 0, 0])
         E["els"], E["isos"], E["ions"], E["isoions"], E["edep"] = els, isos, ions, isoions, edep
         # hydrogen that is not labile by the property's wording
@@ -354,7 +361,7 @@ def fraction_strategy():
     return st.tuples(st.integers(0, 7), mid).map(lambda t: 0.0 if t[0] == 3 else 1.0 if t[0] == 4 else t[1])
 
 
-def items_strategy(E, max_other=5, allow_t=True):
+def items_strategy(E, max_other=5, allow_t=True, heavy=False):
     cs = count_strategy()
     other = other_atom(E)
     if not allow_t:
@@ -363,6 +370,11 @@ def items_strategy(E, max_other=5, allow_t=True):
     hh = st.lists(st.tuples(st.just(["H", 0, 0]), cs), min_size=0, max_size=1)
     dd = st.lists(st.tuples(st.just(["D", 0, 0]), cs), min_size=0, max_size=1)
     oo = st.lists(st.tuples(other, cs), min_size=0, max_size=max_other)
+    if heavy:
+        # a chelated heavy atom (Lu-, Yb-, Er-, Gd-DOTA ...): any atom with an energy-dependent table, in 2 of 5 draws
+        hv = st.tuples(st.integers(0, 4), st.sampled_from(E["edep"]), st.sampled_from([None, "1", "2", "0.5"])).map(
+            lambda t: [(t[1], t[2])] if t[0] in (1, 3) else [])
+        oo = st.tuples(oo, hv).map(lambda t: t[0] + t[1])
     base = st.tuples(lab, hh, dd, oo).map(lambda t: [list(x) for part in t for x in part]).filter(lambda l: len(l) > 0)
     return base.flatmap(lambda l: st.permutations(l))
 
@@ -487,7 +499,7 @@ def _check_compound(ctx, case):
     n_lab = sum(n for a, n in pairs if a is L)
     has_d = any(a is E["T"].D for a, n in pairs)
     has_h = any(a is E["T"].H for a, n in pairs)
-    edep = any(a.neutron.is_energy_dependent for a, n in pairs)
+    edep = any(has_table(a) for a, n in pairs)
     cls = ["labile:" + ("0" if not n_lab else "1" if n_lab == 1 else "n"), "route:" + c["route"], "density:" + c["dens"][0],
            "d:" + ("0" if d == 0 else "1" if d == 1 else "mid"), "v:" + ("0" if v == 0 else "1" if v == 1 else "mid"),
            "wl:" + ("default" if wl is None else wl[0] + (":vector" if isinstance(wl[1], list) else ":scalar")), "style:" + style,
@@ -716,7 +728,7 @@ def molecule_strategy(E):
     dens = st.tuples(st.integers(0, 5), st.integers(1, 9999)).map(lambda t: ("%d.%04d" % t).rstrip("0"))
     how = st.one_of(vol.map(lambda x: ["cell_volume", x]), dens.map(lambda x: ["density", x]),
                     dens.map(lambda x: ["tag", x]), dens.map(lambda x: ["tagn", x]))
-    mol = st.tuples(items_strategy(E, max_other=4, allow_t=False), how, st.sampled_from(["str", "dict", "formula"]),
+    mol = st.tuples(items_strategy(E, max_other=4, allow_t=False, heavy=True), how, st.sampled_from(["str", "dict", "formula"]),
                     st.integers(-3, 3), st.booleans()).flatmap(
         lambda t: group_strategy(len(t[0])).map(
             lambda g: {"kind": "molecule", "items": t[0], "group": g, "how": t[1], "form": t[2], "charge": t[3], "alt": t[4]}))
@@ -769,7 +781,13 @@ def construct(E, case):
         arg = dict((a, n) for a, n in pairs)
     label = "Molecule(%r as %s, %s=%s, charge=%d)" % (arg_text, form, how, val, case["charge"])
     m = fa.Molecule("generated", arg, charge=case["charge"], **kw)
-    return m, pairs, V, label, ["class:Molecule:" + how, "form:" + form]
+    cls = ["class:Molecule:" + how, "form:" + form]
+    tabled = [a for a, n in pairs if has_table(a)]
+    if tabled:
+        cls.append("molecule:energy-table:" + how)
+        if any(not a.neutron.is_energy_dependent for a in tabled):
+            cls.append("molecule:energy-table:not-flagged:" + how)
+    return m, pairs, V, label, cls
 
 
 def check_generated_molecule(ctx, case):
